@@ -537,9 +537,14 @@ func zzConnWrite() {
 	g.cancelCallerCtx = cancel
 	g.callerCtx = ctx
 	var msg Message
-	if vChoice("msgKind", 2) == 0 {
+	switch vChoice("msgKind", 3) {
+	case 0:
 		msg = &Response{ID: Int64ID(5), Result: []byte("r")}
-	} else {
+	case 2:
+		msg = &Request{ID: Int64ID(7), Method: "roots/list"} // the request of a Call registered a moment ago
+		g.mine = &AsyncCall{id: Int64ID(7), ready: make(chan struct{})}
+		g.mineReg = true
+	default:
 		msg = &Request{Method: "notifications/x"}
 		g.myNotif = 1 // Notify holds a token while it writes
 	}
@@ -559,6 +564,9 @@ func zzConnWrite() {
 		}
 	} else {
 		vAssert(len(g.w.msgs) == 0 && err != nil && errors.Is(err, ErrServerClosing), "C05.write-refused-only-when-shutting-down")
+		// a message refused at the shutdown gate was never handed to the writer: nothing is known about the writer, and
+		// the handlers Close lets run to completion are not to be cancelled on that account
+		vAssert(!g.setWriteErr, "C05.refused-write-is-not-a-broken-writer")
 		vReach("refused")
 	}
 	vReach("end")
